@@ -1,4 +1,4 @@
 From Coq Require Import ExtrOcamlBasic ExtrOcamlString.
-From IV Require Import C08.Defs.
+From IV Require Import C08.Defs C08.Subst.
 Extraction Language OCaml.
-Extraction "ext.ml" impl_program spec_program stringify.
+Extraction "ext.ml" impl_program spec_program stringify subst_define.
